@@ -40,6 +40,9 @@ type Viol struct {
 	Expected string          `json:"expected,omitempty"`
 	Kind     string          `json:"kind"` // viol | budget | crash | mem | offline
 	Count    int             `json:"-"`
+	Shard    int             `json:"-"` // shard that produced it (-1: unknown)
+	Of       int             `json:"-"`
+	Prefix   bool            `json:"-"` // reproduces only after the preceding units of its shard (process-level state)
 }
 
 // Super is the supervisor state; Finish hooks receive it.
@@ -277,7 +280,7 @@ func tail(path string, n int) string {
 	return string(b)
 }
 
-func (s *Super) absorb(j *journal) {
+func (s *Super) absorb(j *journal, shard, of int) {
 	var lastCum *Rec
 	for i := range j.recs {
 		r := &j.recs[i]
@@ -291,7 +294,7 @@ func (s *Super) absorb(j *journal) {
 			}
 			s.mu.Unlock()
 		case "viol":
-			s.addViol(&Viol{Key: r.Key, Unit: r.Unit, Seq: unitSeqOf(j, r.Unit), Case: r.Case, Observed: r.Observed, Expected: r.Expected, Kind: "viol"})
+			s.addViol(&Viol{Key: r.Key, Unit: r.Unit, Seq: unitSeqOf(j, r.Unit), Case: r.Case, Observed: r.Observed, Expected: r.Expected, Kind: "viol", Shard: shard, Of: of})
 		case "budget":
 			s.addViol(&Viol{Key: r.Key + "|budget", Unit: r.Unit, Seq: unitSeqOf(j, r.Unit), Case: jsonString(r.Key), Observed: fmt.Sprintf("library call did not return within %.1f CPU-s\n%s", r.CPU, r.Observed), Expected: "call returns (ordinary cases of this workload take milliseconds)", Kind: "budget"})
 		case "mem":
@@ -381,7 +384,11 @@ func (s *Super) runShard(shard, of int) {
 			s.Inconclusive(fmt.Sprintf("shard %d: no journal (exit %d): %s", shard, code, tail(filepath.Join(s.RunDir, stderrName), 2000)))
 			return
 		}
-		s.absorb(j)
+		if attempt == 0 {
+			s.absorb(j, shard, of)
+		} else {
+			s.absorb(j, -1, of) // after a restart the prefix of the shard is no longer the same
+		}
 		s.absorbNT(filepath.Join(s.RunDir, fmt.Sprintf("nt-%d%s.bin", shard, tag)))
 		if j.done || j.stopped {
 			return
@@ -468,6 +475,22 @@ func (s *Super) confirm(v *Viol, n int) bool {
 	if v.Kind == "crash" && !j.done && code != 0 {
 		return true
 	}
+	// The unit alone does not reproduce it: the violation may depend on state that earlier units of the same shard
+	// left behind in the process (package-level pools, caches).  Re-execute the shard up to and including the unit.
+	if v.Shard >= 0 && v.Of > 1 && v.Kind == "viol" {
+		tag := fmt.Sprintf(".confirmprefix%d", n)
+		args := []string{"child", s.o.Prop.ID, s.o.Tier, "--shard", strconv.Itoa(v.Shard), "--of", strconv.Itoa(v.Of),
+			"--seed", strconv.FormatUint(s.o.Seed, 10), "--out", s.RunDir, "--tag", tag, "--stop-after", v.Unit}
+		s.runChild(args, fmt.Sprintf("shard-%d%s.stderr", v.Shard, tag))
+		if j2, err := readJournal(filepath.Join(s.RunDir, fmt.Sprintf("shard-%d%s.journal", v.Shard, tag))); err == nil {
+			for _, r := range j2.recs {
+				if r.T == "viol" && r.Key == v.Key {
+					v.Prefix = true
+					return true
+				}
+			}
+		}
+	}
 	return false
 }
 
@@ -484,6 +507,10 @@ type Replay struct {
 	Expected string          `json:"expected"`
 	RepoHead string          `json:"repo_head"`
 	How      string          `json:"how_to_replay"`
+	// NeedsPrefix: the violation reproduces only when the preceding units of shard Shard/Of ran in the same process.
+	NeedsPrefix bool `json:"needs_shard_prefix,omitempty"`
+	Shard       int  `json:"shard,omitempty"`
+	Of          int  `json:"of,omitempty"`
 }
 
 func (s *Super) repoHead() string {
@@ -507,7 +534,7 @@ func (s *Super) writeReplay(v *Viol) string {
 	p := filepath.Join(dir, name)
 	rp := Replay{Property: s.o.Prop.ID, Tier: s.o.Tier, Seed: s.o.Seed, Unit: v.Unit, Key: v.Key, Kind: v.Kind,
 		Input: v.Case, Observed: v.Observed, Expected: v.Expected, RepoHead: s.repoHead(),
-		How: fmt.Sprintf("cd /verif && ./check %s --replay %s", s.o.Prop.ID, p)}
+		How: fmt.Sprintf("cd /verif && ./check %s --replay %s", s.o.Prop.ID, p), NeedsPrefix: v.Prefix, Shard: v.Shard, Of: v.Of}
 	b, _ := json.MarshalIndent(rp, "", " ")
 	os.WriteFile(p, b, 0o644)
 	return p
@@ -741,8 +768,14 @@ func (s *Super) replay(out io.Writer) int {
 	v := &Viol{Key: rp.Key, Unit: rp.Unit, Kind: rp.Kind}
 	args := []string{"child", s.o.Prop.ID, rp.Tier, "--shard", "0", "--of", "1",
 		"--seed", strconv.FormatUint(rp.Seed, 10), "--out", s.RunDir, "--tag", ".replay", "--only", rp.Unit}
+	jname := "shard-0.replay.journal"
+	if rp.NeedsPrefix {
+		args = []string{"child", s.o.Prop.ID, rp.Tier, "--shard", strconv.Itoa(rp.Shard), "--of", strconv.Itoa(rp.Of),
+			"--seed", strconv.FormatUint(rp.Seed, 10), "--out", s.RunDir, "--tag", ".replay", "--stop-after", rp.Unit}
+		jname = fmt.Sprintf("shard-%d.replay.journal", rp.Shard)
+	}
 	code, _ := s.runChild(args, "shard-0.replay.stderr")
-	j, err := readJournal(filepath.Join(s.RunDir, "shard-0.replay.journal"))
+	j, err := readJournal(filepath.Join(s.RunDir, jname))
 	if err != nil {
 		fmt.Fprintf(out, "INCONCLUSIVE property=%s reason=replay child wrote no journal\n", s.o.Prop.ID)
 		return 2
@@ -933,7 +966,7 @@ func (s *Super) runUnitsInOwnProcesses(jobs int) {
 					s.Inconclusive(fmt.Sprintf("unit %s: no journal (exit %d): %s", units[i], code, tail(filepath.Join(s.RunDir, stderrName), 2000)))
 					continue
 				}
-				s.absorb(j)
+				s.absorb(j, -1, 1)
 				s.absorbNT(filepath.Join(s.RunDir, fmt.Sprintf("nt-%d%s.bin", i, tag)))
 				if j.done || j.stopped {
 					continue
